@@ -94,6 +94,12 @@ func newBiscuit(root ed25519.PrivateKey, baseSymbols *datalog.SymbolTable, autho
 	}
 
 	symbols.Extend(authority.symbols)
+	// the same rule as for a token read from bytes: a block may only refer to symbols that
+	// it or the base table declares (a block built over another table would otherwise take
+	// the meaning of whatever a later block declares)
+	if err := checkDeclaredSymbols(authority, symbols); err != nil {
+		return nil, err
+	}
 
 	nextPublicKey, nextPrivateKey, err := ed25519.GenerateKey(options.rng)
 	if err != nil {
@@ -191,6 +197,9 @@ func (b *Biscuit) Append(rng io.Reader, block *Block) (*Biscuit, error) {
 
 	symbols := b.symbols.Clone()
 	symbols.Extend(block.symbols)
+	if err := checkDeclaredSymbols(block, symbols); err != nil {
+		return nil, err
+	}
 
 	nextPublicKey, nextPrivateKey, err := ed25519.GenerateKey(rng)
 	if err != nil {
